@@ -234,7 +234,7 @@ class SimBase:
         self.handles.append(h)
         if t.done and t.code == 200 and t.body:
             try:
-                pk = decode_payload(t.text(), q.get('j'))
+                pk = decode_payload(t.payload_text(), q.get('j'))
                 if pk and pk[0][0] == 0 and isinstance(pk[0][1], dict):
                     h.open = pk[0][1]
                     h.sid = h.open.get('sid')
